@@ -137,6 +137,13 @@ class YosysBehavioralRTLIRToVVisitorL2(
   # visit_LoopVar
   #-----------------------------------------------------------------------
 
+  def visit_TmpVar( s, node ):
+    ret = super().visit_TmpVar( node )
+    # A temporary can be the base of a signal expression: u[3], u[2:6]
+    node.sexpr = { 'attr' : [], 'index' : [], 's_index' : "",
+                   's_attr' : ret.replace( '{', '{{' ).replace( '}', '}}' ) }
+    return ret
+
   def visit_LoopVarDecl( s, node ):
     # The loop variable always gets the __loopvar__<blk>_ prefix here
     s.check_res( node, node.name )
